@@ -119,7 +119,7 @@ def _strip(node):
 _NF_CACHE = {}
 
 
-def _normalizer(model, pm, node, name, prune=True):
+def _normalizer(model, pm, node, name, prune=True, cls=None):
     """Normalizer for a function of repo module `pm` with the module's private helpers (functions that are not part of the
     reference API) inlined - the same configuration for repository functions and for the reference implementations written in rules."""
     funcs = toplevel_funcs(pm.tree)
@@ -149,9 +149,19 @@ def _normalizer(model, pm, node, name, prune=True):
                     for k_, v_ in toplevel_funcs(model.modules[km].tree).items():
                         allf.setdefault(k_, v_)
     nz.module_funcs = set(known)
-    priv = port_private(allf.keys())
+    priv = set(port_private(allf.keys()))
+    meths = {}
+    if cls is not None:
+        # private methods of the class (self._helper(...)): inlined like private module-level helpers
+        for m_, f_ in cls.methods.items():
+            if m_.startswith('_') and not m_.startswith('__') and m_ != name:
+                allf['meth:' + m_] = f_.node
+                meths[m_] = 'meth:' + m_
+                priv.add('meth:' + m_)
     if priv:
         nz.inliner = Inlining(allf, SHAPES, known, True, gl, lambda n_: n_ in priv and n_ != name)
+        nz.inliner.self_methods = meths
+        nz.self_methods = meths
     return nz
 
 
@@ -309,7 +319,7 @@ def func_nf(model, fi, prune=True):
     for star in pm.stars:
         if star in model.modules:
             known |= set(toplevel_funcs(model.modules[star].tree))
-    nz = _normalizer(model, pm, fi.node, fi.node.name, prune)
+    nz = _normalizer(model, pm, fi.node, fi.node.name, prune, getattr(fi, 'cls', None))
     try:
         t = nz.run()
     except Unsupported as e:
@@ -334,7 +344,7 @@ def fi_matches_spec(model, fi, spec_src, prune=True, cell_shape=None):
     if len(fn) != 1:
         raise AnalysisError('spec for %s must define exactly one function' % fi.qualname)
     fn[0].name = fi.node.name
-    sz = _normalizer(model, pm, fn[0], fi.node.name, prune)
+    sz = _normalizer(model, pm, fn[0], fi.node.name, prune, getattr(fi, 'cls', None))
     try:
         s = sz.run()
     except Unsupported as e:
